@@ -24,7 +24,7 @@ import (
 	"verif/internal/model"
 )
 
-const rule = "part 1 (exhaustive): every signing-type code and every crypto-type code 0..65535 through every size lookup (two maps + constants in key_certificate, GetKeySizes/GetSigningKeySize/GetCryptoKeySize/GetSignatureSize, KeyCertificate.{SignatureSize,SigningPublicKeySize,CryptoSize,CryptoPublicKeySize}, signature.SignatureSize, offline_signature.{SigningPublicKeySize,SignatureSize}) plus behavioural probes (LeaseSet2.Validate on a key of that type with right/wrong length, ReadEncryptedLeaseSet and ReadOfflineSignature framing with that type): all answers must agree with each other, and with the specification table for the codes it defines (reserved codes: mutual agreement only). part 2 (generated): identities of every supported (signing, crypto) pair with arbitrary key, padding and certificate bytes through the parser, the constructor and the two key-type-specific readers (which must accept their own pair and, for whatever else they accept, obey the same layout): key bytes at [0,cs) and [384-ss,384), padding exactly between, declared sizes = lengths of the keys returned. Non-trivial: code known to at least one table, or an identity with non-empty padding; distinct by code / identity bytes."
+const rule = "part 1 (exhaustive): every signing-type code and every crypto-type code 0..65535 through every size lookup (two maps + constants in key_certificate, GetKeySizes/GetSigningKeySize/GetCryptoKeySize/GetSignatureSize, KeyCertificate.{SignatureSize,SigningPublicKeySize,CryptoSize,CryptoPublicKeySize}, signature.SignatureSize, offline_signature.{SigningPublicKeySize,SignatureSize}) plus behavioural probes (LeaseSet2.Validate on a key of that type with right/wrong length, ReadEncryptedLeaseSet and ReadOfflineSignature framing with that type): all answers must agree with each other, and with the specification table for the codes it defines (reserved codes: mutual agreement only). (the leaseset key validation is probed with the key alone, in second position after an X25519 and after an ElGamal key, and in first position before another key) part 2 (generated): identities of every supported (signing, crypto) pair with arbitrary key, padding and certificate bytes through the parser, the constructor and the two key-type-specific readers (which must accept their own pair and, for whatever else they accept, obey the same layout): key bytes at [0,cs) and [384-ss,384), padding exactly between, declared sizes = lengths of the keys returned. Non-trivial: code known to at least one table, or an identity with non-empty padding; distinct by code / identity bytes."
 
 func TestMain(m *testing.M) { ev.Main(m, "C10", rule) }
 
@@ -218,24 +218,44 @@ func checkEncCode(code int, r *ev.Rec) error {
 	if err != nil {
 		return fmt.Errorf("probe destination: %v", err)
 	}
-	mk := func(l int) error {
+	// the probed key alone, after a well-formed X25519 key, after a well-formed ElGamal
+	// key, and before a well-formed X25519 key: the answer must not depend on the position
+	x25519Key := lease_set2.EncryptionKey{KeyType: 4, KeyLen: 32, KeyData: model.Fill(32, 3)}
+	elgKey := lease_set2.EncryptionKey{KeyType: 0, KeyLen: 256, KeyData: model.ElgPub(5)}
+	layouts := []struct {
+		name          string
+		before, after []lease_set2.EncryptionKey
+	}{
+		{"alone", nil, nil},
+		{"second, after an X25519 key", []lease_set2.EncryptionKey{x25519Key}, nil},
+		{"second, after an ElGamal key", []lease_set2.EncryptionKey{elgKey}, nil},
+		{"first, before an X25519 key", nil, []lease_set2.EncryptionKey{x25519Key}},
+	}
+	mk := func(l, layout int) error {
 		l2, _ := lease.NewLease2(data.Hash{1}, 1, lease2Time)
-		ls, err := lease_set2.NewLeaseSet2(d, 1000, 600, 0, nil, data.Mapping{},
-			[]lease_set2.EncryptionKey{{KeyType: uint16(code), KeyLen: uint16(l), KeyData: model.Fill(l, 7)}}, []lease.Lease2{*l2}, nil)
+		keys := append([]lease_set2.EncryptionKey{}, layouts[layout].before...)
+		keys = append(keys, lease_set2.EncryptionKey{KeyType: uint16(code), KeyLen: uint16(l), KeyData: model.Fill(l, 7)})
+		keys = append(keys, layouts[layout].after...)
+		ls, err := lease_set2.NewLeaseSet2(d, 1000, 600, 0, nil, data.Mapping{}, keys, []lease.Lease2{*l2}, nil)
 		if err != nil {
 			return err
 		}
 		return ls.Validate()
 	}
-	if err := mk(right); err != nil {
-		return fmt.Errorf("crypto type %d: a leaseset key of the table's length %d is rejected: %v", code, right, err)
-	}
-	errWrong := mk(right + 1)
-	if known && errWrong == nil {
-		return fmt.Errorf("crypto type %d: known with length %d, yet leaseset validation accepts %d bytes", code, right, right+1)
-	}
-	if !known && errWrong != nil {
-		return fmt.Errorf("crypto type %d: unknown to the tables, yet leaseset validation enforces a length: %v", code, errWrong)
+	for li, lay := range layouts {
+		if li > 0 && code > 300 && code < 65270 && code%64 != 0 {
+			continue // positions other than "alone": all assigned and boundary codes, every 64th of the rest
+		}
+		if err := mk(right, li); err != nil {
+			return fmt.Errorf("crypto type %d (%s): a leaseset key of the table's length %d is rejected: %v", code, lay.name, right, err)
+		}
+		errWrong := mk(right+1, li)
+		if known && errWrong == nil {
+			return fmt.Errorf("crypto type %d (%s): known with length %d, yet leaseset validation accepts %d bytes", code, lay.name, right, right+1)
+		}
+		if !known && errWrong != nil {
+			return fmt.Errorf("crypto type %d (%s): unknown to the tables, yet leaseset validation enforces a length: %v", code, lay.name, errWrong)
+		}
 	}
 	if known || specKnown {
 		r.NonTrivialStr(CodeCase{"enc", code}, "enc", fmt.Sprint(code))
